@@ -175,7 +175,9 @@ def window_plumbing(prog, rep):
             continue
         c = calls[0]
         ok_m = c.func.attr == meth
-        ok_b = norm(c.func.value.slice) == bucket_param
+        from ..sqlmodel import local_defs as _ld
+
+        ok_b = norm(c.func.value.slice) == bucket_param and not _ld(fi, bucket_param)  # the argument itself, not a re-bound / resolved name
         kw = {k.arg: k.value for k in c.keywords}
         names = ["limit", "starttime", "endtime"] if meth == "get" else ["starttime", "endtime"]
         for i, a in enumerate(c.args):
@@ -195,7 +197,7 @@ def window_plumbing(prog, rep):
         if not ok_m:
             why.append(f"calls .{c.func.attr}() instead of .{meth}()")
         if not ok_b:
-            why.append(f"reads datastore[{norm(c.func.value.slice)}] instead of its own argument `{bucket_param}`")
+            why.append(f"reads datastore[{norm(c.func.value.slice)}]" + (f" after re-binding `{bucket_param}` ({norm(_ld(fi, bucket_param)[0])[:60]})" if _ld(fi, bucket_param) else "") + f" instead of the bucket named by its own argument `{bucket_param}`")
         if not ok_s:
             why.append(f"starttime= is `{norm(kw['starttime']) if 'starttime' in kw else 'missing'}`, not the query's STARTTIME")
         if not ok_e:
@@ -237,6 +239,11 @@ def check(prog, rep):
     own_rules(prog, rep, methods=["get_events", "get_eventcount", "get_metadata", "buckets", "get_event"])
     window_plumbing(prog, rep)
     stateless(prog, rep)
+    from ..rules_commit import check_no_rollback
+    from ..rules_own import copy_protocol
+
+    check_no_rollback(prog, rep)
+    copy_protocol(prog, rep)
 
 
 VARIANTS = [
